@@ -154,9 +154,10 @@ def run(ctx, crate):
         no_exit = all(not lp.exits()[1] for lp in O.loops_of_body(b))
         unconditional = g is not None and all(all(a.startswith("is(arg3; ") for a in c) for c in g) and len(b.loops_of(s.bb)) == 1 and no_exit
         inserted = len(ins) == 1 and len(ins[0].args) == 2 and ins[0].args[1] == s.result and ins[0].guard == g
-        obs.append(Ob("R02.plumb", d.path, "every location is converted and kept", unconditional and inserted, site=s.where,
-                      expected="for loc in locations { lines.insert(get_line_number(loc.start(), text)) }; return lines",
-                      found="unconditional=%s inserted_into_result=%s" % (unconditional, inserted)))
+        edited = sorted(set(l_ for site_ in d.table.values() for l_ in S.mutable_borrows_of_result(b, site_)))
+        obs.append(Ob("R02.plumb", d.path, "every location is converted and kept", unconditional and inserted and not edited, site=s.where,
+                      expected="for loc in locations { lines.insert(get_line_number(loc.start(), text)) }; return lines — the detector's set not edited in between",
+                      found="unconditional=%s inserted_into_result=%s%s" % (unconditional, inserted, (" detector result borrowed mutably at line(s) %s" % edited) if edited else "")))
     # ---------------- get_line_number
     lb = crate.bodies.get(D.LINE_FN)
     if lb is None:
